@@ -115,11 +115,7 @@ class DBConnection:
                 'URIs cannot express passwords without usernames')
         uri = '%s://%s' % (self.dbName, auth)
         if self.host:
-            host = self.host
-            if ':' in host and not host.startswith('['):
-                # IPv6 address literal: RFC 3986 requires brackets
-                host = '[%s]' % host
-            uri += host
+            uri += self.host
             if self.port:
                 uri += ':%d' % self.port
         uri += '/'
@@ -140,7 +136,11 @@ class DBConnection:
                 'URIs cannot express passwords without usernames')
         uri = '%s://%s' % (self.dbName, auth)
         if self.host:
-            uri += self.host
+            host = self.host
+            if ':' in host and not host.startswith('['):
+                # IPv6 address literal: RFC 3986 requires brackets
+                host = '[%s]' % host
+            uri += host
         if self.port is not None:
             uri += ':%d' % self.port
         uri += '/'
